@@ -229,6 +229,9 @@ def run(ctx):
             pool.append('.'.join(('0' * rng.randrange(3)) + x for x in v.split('.')))   # leading zeros
     pairs = [(a, b) for a in JUNK for b in JUNK] if not q else [(rng.choice(JUNK), rng.choice(JUNK)) for _ in range(600)]
     pairs += [(rng.choice(pool), rng.choice(pool)) for _ in range(900 if q else 12000)]
+    # components longer than int() converts (4300 digits): still ordered as numbers (since fix e13d039 / 6bd6eba)
+    big = ['9' * 4301, '1' + '0' * 4400, '0' * 50 + '9' * 4301, '9' * 4300, '8.' + '7' * 5000, '8.' + '7' * 5000 + '.1', '0' * 5000, '0' * 5000 + '.0']
+    pairs += [(a, b) for a in big for b in big[:4] + ['8.9', '0', '10']] if not q else [(rng.choice(big), rng.choice(big + ['8.9', '0'])) for _ in range(12)]
     for a, b in pairs:
         r = Utils.compare_versions(a, b)
         add('Z.eqb (compare_versions %s %s) %s' % (cstr(a), cstr(b), cz(r)), {'op': 'compare_versions', 'a': a, 'b': b, 'impl': r},
